@@ -134,9 +134,17 @@ def main():
                 q = os.path.join(d, f'n{idx}_adv.sgz')
                 inp2 = dict(inp, writer=route + ' -> re-block')
                 try:
-                    with SgzConverter(p) as c:
-                        quiet(c.convert_to_adv_sgz, q)
-                    check_file(q, inp2, src, (n_il, n_xl, ns), hsrc)
+                    # what the converter object served before must not show in the file it writes: once on a fresh object,
+                    # once after a query for the LAST stored field (it is then the first array in the object's memo)
+                    for warm in (True, False):
+                        with SgzConverter(p) as c:
+                            if warm and len(c.stored_header_keys) >= 2:
+                                c.get_tracefield_values(c.stored_header_keys[-1])
+                                inp2 = dict(inp2, before='get_tracefield_values(last stored field) on the same converter')
+                            else:
+                                inp2 = {k_: v_ for k_, v_ in inp2.items() if k_ != 'before'}
+                            quiet(c.convert_to_adv_sgz, q)
+                        check_file(q, inp2, src, (n_il, n_xl, ns), hsrc)
                     R.case(('reblock', idx), sample=inp2)
                     R.count('writer:re-block')
                 except Exception as e:
@@ -196,7 +204,7 @@ def main():
                     R.notes.append(f'crop composition skipped ({type(e).__name__}: {str(e)[:80]})') if len(R.notes) < 5 else None
         # ---------------- SEG-Y converted with an inline/crossline WINDOW: the container must be that of the sub-cube (header
         # arrays of 4 bytes per WINDOW trace).  Trace counts of source and window fall into different 512-byte strides.
-        wcases = [((12, 12), (2, 10, 0, 8)), ((9, 15), (0, 9, 3, 12)), ((16, 16), (1, 9, 4, 16))]
+        wcases = [((12, 12), (2, 10, 0, 8)), ((10, 6), (3, 10, 0, 6)), ((9, 15), (0, 9, 3, 12)), ((16, 16), (1, 9, 4, 16))]     # (the 2nd: an inline-only window, with reduce_iops)
         if thorough:
             wcases += [((11, 13), (3, 11, 0, 13)), ((20, 8), (4, 20, 0, 8)), ((8, 33), (0, 8, 1, 17)), ((17, 17), (0, 16, 0, 8))]
         for wi, ((n_il, n_xl), win) in enumerate(wcases):
